@@ -411,8 +411,12 @@ impl Extend<u32> for SetU32 {
 impl SetU32 {
     fn to_array(&self) -> Vec<u32> {
         let mut out = Vec::new();
-        if self.0 as usize == 0 || self.0 as usize & 7 != 0 {
-            out.push(self.0 as u32);
+        if self.0 as usize == 0 || self.0 as usize & 3 != 0 {
+            // The inline word is as wide as a pointer: two `u32`s, low half first.
+            // A heap set always serializes to at least three numbers.
+            let w = self.0 as usize as u64;
+            out.push(w as u32);
+            out.push((w >> 32) as u32);
         } else {
             let s = unsafe { &*self.0 };
             let b = &s.b;
@@ -424,7 +428,7 @@ impl SetU32 {
         out
     }
     fn from_array(v: &[u32]) -> SetU32 {
-        if v.len() > 1 {
+        if v.len() > 2 {
             let cap = v.len() - 2;
             let mut set = SetU32::with_capacity_and_bits(cap, v[1]);
             match set.internal_mut() {
@@ -453,7 +457,8 @@ impl SetU32 {
             }
             set
         } else {
-            SetU32(v[0] as *mut S)
+            let hi = if v.len() > 1 { v[1] as u64 } else { 0 };
+            SetU32(((v[0] as u64) | hi << 32) as usize as *mut S)
         }
     }
 }
